@@ -1,5 +1,123 @@
-import XlVerif.Base
-/-! Driver for C20 (stub: replaced when the property's model is built). -/
+import XlVerif.Model.C20
+import XlVerif.Spec.C20
+/-!
+  Driver for C20.  Requests (`C20` already stripped), numbers as `n/d` or `n`, lists as `L:q1,q2,…`:
+
+  * `NPV rate L:values`                → `impl=<res> spec=<q> gross=<q>`
+  * `PMT rate nper pv fv type`         → `impl=<res> spec=<q|-> closed=<q>`   (spec: solution of the annuity recursion)
+  * `PV rate nper pmt fv type`         → `impl=<res> spec=<q|-> closed=<q>`
+  * `PVPMT rate nper pv fv`            → `impl=<res>` of PV(rate,nper,PMT(rate,nper,pv,fv),fv)
+  * `SLN cost salvage life`            → `impl=<res> spec=<q|->`
+  * `XNPV rate L:values L:dates L:weights` → `impl=<res> spec=<q>`; `weights[i]` is the harness-supplied
+        value of `(1+rate) ** ((dates[i]-dates[0])/365)` (the uninterpreted power of the model)
+  * `IRRCERT r eps L:flows`            → `dom=<0|1> lo=<sign> hi=<sign>`: signs of the NPV of the flows at
+        `r-eps` and `r+eps`, computed exactly; `impl` and `spec` NPV agree is reported as `agree=<0|1>`
+  * `XIRRCERT L:values L:dates L:wlo L:whi` → `dom=… lo=<sign> hi=<sign>` with the weights at `r∓eps` supplied
+  * `XIRRPREP L:values L:dates`        → `vals=L:… dates=L:…` the rows the model hands to the solver
+-/
 namespace XlVerif.Drv.C20
-def handle (_fields : List String) : String := "error=not-implemented"
+open XlVerif XlVerif.Model.C20
+
+def showQ (q : Rat) : String := "F:" ++ ratWire q
+
+def showRes : Res → String
+  | .ok q => showQ q
+  | .err c => "E:" ++ c.wire
+  | .crash k => "X:" ++ k.wire
+  | .posInf => "N:+inf"
+  | .nonfinite => "N:nonfinite"
+
+def showL (l : List Rat) : String := "L:" ++ ",".intercalate (l.map ratWire)
+
+def parseL? (s : String) : Option (List Rat) :=
+  if s.startsWith "L:" then
+    let body := (s.drop 2).toString
+    if body.isEmpty then some [] else (body.splitOn ",").mapM parseRat?
+  else none
+
+def sign (q : Rat) : String := if q < 0 then "-" else if q = 0 then "0" else "+"
+
+def absQ (q : Rat) : Rat := if q < 0 then -q else q
+
+/-- weight table → the model's power parameter (the base is fixed by the request) -/
+def tableW (ts ws : List Rat) : Rat → Rat → Rat := fun _ t =>
+  match (ts.zip ws).find? (fun p => p.1 == t) with
+  | some p => p.2
+  | none => 0
+
+def offsets (dates : List Rat) : List Rat :=
+  match dates with
+  | [] => []
+  | d0 :: _ => dates.map fun d => (d - d0) / 365
+
+def boolStr (b : Bool) : String := if b then "1" else "0"
+
+def natOf? (q : Rat) : Option Nat := if q.den = 1 ∧ 0 ≤ q.num then some q.num.toNat else none
+
+def handle (fields : List String) : String :=
+  match fields with
+  | ["NPV", rate, values] =>
+    match parseRat? rate, parseL? values with
+    | some r, some vs =>
+      kv [("impl", showRes (NPV r vs)), ("spec", showQ (Spec.C20.npv r vs)),
+          ("gross", showQ (Spec.C20.npv r (vs.map absQ)))]
+    | _, _ => "error=bad-args"
+  | ["PMT", rate, nper, pv, fv, type] =>
+    match parseRat? rate, (parseRat? nper).bind natOf?, parseRat? pv, parseRat? fv, parseRat? type with
+    | some r, some n, some p, some f, some t =>
+      let spec := if n = 0 ∨ r ≤ -1 then "-" else showQ (Spec.C20.solvePMT r n p f false)
+      kv [("impl", showRes (PMT r n p f t)), ("spec", spec), ("closed", showQ (Spec.C20.pmtClosed r n p f 0))]
+    | _, _, _, _, _ => "error=bad-args"
+  | ["PV", rate, nper, pmt, fv, type] =>
+    match parseRat? rate, (parseRat? nper).bind natOf?, parseRat? pmt, parseRat? fv, parseRat? type with
+    | some r, some n, some p, some f, some t =>
+      let spec := if r = -1 ∨ ¬ (t = 0 ∨ t = 1) then "-" else showQ (Spec.C20.solvePV r n p f (t == 1))
+      kv [("impl", showRes (PV r n p f (.flt t))), ("spec", spec), ("closed", showQ (Spec.C20.pvClosed r n p f t))]
+    | _, _, _, _, _ => "error=bad-args"
+  | ["PVPMT", rate, nper, pv, fv] =>
+    match parseRat? rate, (parseRat? nper).bind natOf?, parseRat? pv, parseRat? fv with
+    | some r, some n, some p, some f =>
+      match PMT r n p f 0 with
+      | .ok pmt => kv [("impl", showRes (PV r n pmt f (.int 0))), ("pmt", showQ pmt)]
+      | other => kv [("impl", showRes other)]
+    | _, _, _, _ => "error=bad-args"
+  | ["SLN", cost, salvage, life] =>
+    match parseRat? cost, parseRat? salvage, parseRat? life with
+    | some c, some s, some l =>
+      kv [("impl", showRes (SLN c s l)), ("spec", if l > 0 then showQ (Spec.C20.sln c s l) else "-")]
+    | _, _, _ => "error=bad-args"
+  | ["XNPV", rate, values, dates, weights] =>
+    match parseRat? rate, parseL? values, parseL? dates, parseL? weights with
+    | some r, some vs, some ds, some ws =>
+      let ts := offsets ds
+      let w := tableW ts ws
+      kv [("impl", showRes (XNPV w r vs ds)), ("spec", showQ (Spec.C20.xnpv (w (1 + r)) vs ds)),
+          ("gross", showQ (Spec.C20.xnpv (w (1 + r)) (vs.map absQ) ds))]
+    | _, _, _, _ => "error=bad-args"
+  | ["IRRCERT", rate, eps, flows] =>
+    match parseRat? rate, parseRat? eps, parseL? flows with
+    | some r, some e, some cs =>
+      let lo := Spec.C20.npv (r - e) cs
+      let hi := Spec.C20.npv (r + e) cs
+      let agree := NPV (r - e) cs == .ok lo && NPV (r + e) cs == .ok hi
+      kv [("dom", boolStr (decide (Spec.C20.OutlayThenReturns cs) && decide (-1 < r - e))),
+          ("lo", sign lo), ("hi", sign hi), ("agree", boolStr agree)]
+    | _, _, _ => "error=bad-args"
+  | ["XIRRCERT", values, dates, wlo, whi] =>
+    match parseL? values, parseL? dates, parseL? wlo, parseL? whi with
+    | some vs, some ds, some wl, some wh =>
+      let ts := offsets ds
+      let lo := Spec.C20.xnpv (tableW ts wl 0) vs ds
+      let hi := Spec.C20.xnpv (tableW ts wh 0) vs ds
+      kv [("dom", boolStr (decide (Spec.C20.OutlayThenReturns vs))), ("lo", sign lo), ("hi", sign hi)]
+    | _, _, _, _ => "error=bad-args"
+  | ["XIRRPREP", values, dates] =>
+    match parseL? values, parseL? dates with
+    | some vs, some ds =>
+      if vs.length ≠ ds.length then "impl=E:NUM" else
+      let s := xirrSeries vs ds
+      kv [("vals", showL (s.map (·.1))), ("dates", showL (s.map (·.2)))]
+    | _, _ => "error=bad-args"
+  | _ => "error=bad-request"
+
 end XlVerif.Drv.C20
